@@ -7,7 +7,9 @@ ENGINE_NOTE = ("Theorems are about the Lean model Engine.step? (every graph, wor
                "interleaving; unbounded). Tie to the code: T1 regenerates Gen/Engine.lean (skeleton flags, stop/zero/classify conditions) from "
                "run_function_on_graph.py on every run, and T3 replays schedule-controlled traces of the real engine through step? with state "
                "snapshots. Trusted: Lean kernel, the translator, the cooperative scheduler harness, CPython queue/threading/GIL atomicity, "
-               "networkx adjacency; lock-protected regions are collapsed to single steps (premises extracted by T1).")
+               "networkx adjacency. Lock-protected regions are single steps of this model; Model/EngineFine.lean has them as five interleavable "
+               "steps each and Lemmas/EngineRefine.lean proves that it refines the coarse model (refine_reach), its traces are replayed too "
+               "(driver `fine`); the Queue's own mutex regions remain trusted.")
 CACHE_NOTE = ("Theorems are about the Lean store-level model (Model/Cache.lean: logical plan with registry, stale check with the comparison "
               "regenerated from caching.py as Gen.Stale.staleCond, from-scratch evaluation FS, World with a logical clock; Model/History.lean: "
               "completed writes / source updates / deletions), for ALL plans, store states, histories, fresh_time values; no bound. Tie to the code: "
@@ -27,7 +29,8 @@ CLAIMED = {
          "For every reachable state of the engine model a begun node has every (transitive) predecessor completed OK (C01_direct, C01_transitive, "
          "C01_enqueued, C01_counter); C01_plan: the same for the user's own dependency relation (argument, keyword, add_dependency edges, through "
          "literal nodes) on the graph a registry-less run examines after ancestor pruning and contraction of trivial literals. Kernel-checked for all "
-         "graphs/schedules; tied to the code by regenerated Gen (engine skeleton, contraction rule) + trace replay of the real engine.", "4/C01"),
+         "graphs/schedules; C01_fine: also when the statements of the two lock-protected blocks interleave with the other threads. Tied to the code by "
+         "regenerated Gen (engine skeleton, contraction rule) + trace replay of the real engine through both models.", "4/C01"),
  "C02": ("proof", "Lean 4 proof (gather/eval by structural induction, argument round-trip over edge permutations, schedule independence) + program differential",
          "eval(gather v) = substitution with containers rebuilt by Python semantics; node-free subtrees keep their identity; opaque objects are not "
          "traversed; getArgumentNodes returns positional and keyword arguments in the order given for any edge order; unpack exactness; any admissible "
@@ -49,12 +52,15 @@ CLAIMED = {
          "nothing is out of date afterwards.", "4/C05"),
  "C06": ("proof", "Lean 4 proof (inductive invariants) + trace refinement check",
          "Nothing reachable from a failed node is ever begun; first_node_error is exactly the first recorded failure and is set iff a call failed "
-         "(C06_contain, C06_error, C06_error_real, C06_raises_iff, C06_failed_not_ok).", "4/C06"),
+         "(C06_contain, C06_error, C06_error_real, C06_raises_iff, C06_failed_not_ok); C06_fine: the same with the failure_lock block as "
+         "individual steps.", "4/C06"),
  "C07": ("proof", "Lean 4 proof (termination measure, deadlock-freedom, Kahn soundness) + trace refinement check + differential test of Kahn model",
          "Every step of the engine model strictly decreases an explicit measure; no reachable non-final state is stuck; a returned run has exactly "
          "worker_count threads, all exited, nothing running, nothing enabled afterwards; a cycle makes the Kahn model raise and a completed sort is a "
          "topological order of all nodes (C07_terminates, C07_no_deadlock, C07_can_finish, C07_quiescent, C07_nothing_later, C07_cycle_rejected, "
-         "C07_kahn_sound, C07_acyclic_first, C07_skeleton). The cooperative scheduler's deadlock detector runs on every controlled schedule.", "4/C07"),
+         "C07_kahn_sound, C07_acyclic_first, C07_skeleton). C07_fine_terminates / C07_fine_no_deadlock: the same for the fine model in which the two "
+         "lock-protected blocks are five interleavable steps each (no lock-order deadlock, a holder can always proceed). The cooperative scheduler's "
+         "deadlock detector runs on every controlled schedule.", "4/C07"),
  "C08": ("proof", "Lean 4 proof (Good preserved by every prefix of every history, no ordering assumption; Good in every reachable state of the run) + cut injection at random events",
          "Whatever subset of writes completed before a cut, in whatever order, Good holds (C08_cut, C08_every_prefix, C08_fault); the next complete run is "
          "correct (C08_next_run_correct); completed writes whose upstream was settled are not out of date afterwards (C08_no_redo). C08_end_to_end_cut / "
@@ -64,7 +70,8 @@ CLAIMED = {
          "For every zone satisfying the PEP 495 law and every naive/aware representation, the converted values compare exactly as the instants they denote "
          "(C18_order), so the regenerated stale condition and the whole stale fold decide as on bare instants (C18_decision, C18_fold_decision, "
          "C18_zone_independent); CPython's algorithms satisfy the law for one-transition zones (C18_cpython_lawful); counter-models for the pre-fix handling "
-         "(C18_keepNaive_counterexample, C18_fold_counterexample) document fixed finding F3.", "4/C18"),
+         "(C18_keepNaive_counterexample, C18_fold_counterexample) document fixed finding F3. C18_cpython_lawful_tables / _local: the law holds for "
+         "every transition table with transitions at least 7 days apart and offsets/jumps below 24 h (the algorithms probe only within 3 days).", "4/C18"),
  "C19": ("proof", "Lean 4 proof (capture/render on stacks of every depth over regenerated traceback code) + differential at nesting depths 1..8",
          "For stacks of every depth the captured chain is the first min(d, D+1) frames after the API function's frame plus the truncation marker iff more "
          "remain (C19_capture_shape), its head is the caller's line at all six API sites (C19_capture_head), nested/store/output calls inherit it "
